@@ -36,6 +36,7 @@ where
 
 /// Serializes an Option<secp::Signature> to and from hex
 pub mod option_rangeproof_hex {
+	use crate::grin_util::secp::constants::MAX_PROOF_SIZE;
 	use crate::grin_util::secp::pedersen::RangeProof;
 	use crate::grin_util::{from_hex, ToHex};
 	use serde::de::{Error, IntoDeserializer};
@@ -60,7 +61,13 @@ pub mod option_rangeproof_hex {
 		Option::<String>::deserialize(deserializer).and_then(|res| match res {
 			Some(string) => from_hex(&string)
 				.map_err(|err| Error::custom(err.to_string()))
-				.and_then(|val| Ok(Some(RangeProof::deserialize(val.into_deserializer())?))),
+				.and_then(|val| {
+					// the proof's own deserializer copies into a MAX_PROOF_SIZE buffer unchecked
+					if val.len() > MAX_PROOF_SIZE {
+						return Err(Error::custom("range proof too long"));
+					}
+					Ok(Some(RangeProof::deserialize(val.into_deserializer())?))
+				}),
 			None => Ok(None),
 		})
 	}
